@@ -33,7 +33,9 @@ RULE = ('tables 1..5 x 1..5, non-square and asymmetric with probability > 0.8 (v
         'vectors), layout recipes giving CSR and CSC start layouts with sorted and unsorted indices, x axis x inplace x '
         '{transform with a function from a finite family: element-wise (x+1, 2x, -x, zero the small ones, zero all), vector-wise '
         '(v/v.sum(), reversed, cumsum, argsort, times the number of values, minus the minimum, a broadcast scalar), using the id, '
-        'using the metadata, a wrong-length result; rankdata with the five tie methods; norm (also vectors whose total is 1e-20, 1e-300 or a few denormals, next to ordinary vectors); pa (incl. negative values, magnitudes down to 5e-324 and norm-then-pa on vectors '
+        'using the metadata, working on its argument in place, stateful (a call counter), a wrong-length result; every call the LIBRARY '
+        'makes to the function is logged (exactly one per vector in axis order, empty vectors included, also after a preparatory '
+        'zeroing transform); rankdata with the five tie methods; norm (also vectors whose total is 1e-20, 1e-300 or a few denormals, next to ordinary vectors); pa (incl. negative values, magnitudes down to 5e-324 and norm-then-pa on vectors '
         'as uneven as 1 : 3e11, travelling as opaque non-zero codes); an element-wise function '
         'along both axes; _normalize_table (-r/-p/none/both) called directly and through the real click command `biom normalize-table` on a JSON / HDF5 file (in process, output file read back)}; the arrays handed to the kernel and every call are recorded and '
         'replayed through the kernel-level model, and for in-place calls the table\'s own arrays through the representation-'
@@ -87,14 +89,45 @@ FUNCS = {
     # id / metadata
     'id_len': lambda v, i, m: v + len(str(i)),
     'md_scale': lambda v, i, m: v * _md_num(m),
+    # works on its argument IN PLACE (the argument is a view of the matrix data) and returns it
+    'inplace_double': lambda v, i, m: _inplace_double(v),
+    # stateful: the k-th call (k = 0, 1, ...) adds k; a fresh counter is made for every run (_make_fn)
+    'counter': None,
     # contract violation
     'too_long': lambda v, i, m: np.append(v, 1.0),
 }
+
+
+def _inplace_double(v):
+    v *= 2
+    return v
+
+
+def _make_fn(name):
+    if name != 'counter':
+        return FUNCS[name]
+    state = {'k': 0}
+
+    def counter(v, i, m):
+        out = v + state['k']
+        state['k'] += 1
+        return out
+    return counter
+
+
+def _logged(f, log):
+    """the function handed to Table.transform: logs every call the LIBRARY makes (a copy of the values,
+    id, metadata), so that exactly one call per vector of the axis, in axis order, empty vectors
+    included, is an observable"""
+    def g(v, i, m):
+        log.append([np.array(v, dtype=float, copy=True).tolist(), str(i), None if m is None else T.plain(dict(m))])
+        return f(v, i, m)
+    return g
 ELEMENTWISE = {'plus1': lambda x: x + 1, 'times2': lambda x: x * 2, 'neg': lambda x: -x,
                'zero_small': lambda x: np.where(np.abs(x) < 1.5, 0.0, x), 'zero_all': lambda x: x * 0}
 ORDER_FREE = {'relative': lambda nz: nz / nz.sum() if nz.sum() != 0 else nz,
               'times_count': lambda nz: nz * len(nz), 'sub_min': lambda nz: nz - nz.min(),
-              'scalar': lambda nz: np.full(nz.shape, 5.0)}
+              'scalar': lambda nz: np.full(nz.shape, 5.0), 'inplace_double': lambda nz: nz * 2}
 _STASH = {}
 _INTERP = {}
 
@@ -251,12 +284,21 @@ def _run_cli(c, t):
         shutil.rmtree(d, ignore_errors=True)
 
 
-def _op(c, t):
+def _op(c, t, ulog):
     k = c['kind']
     if k == 'transform':
-        return t.transform(FUNCS[c['fn']], axis=c['axis'], inplace=c['inplace'])
+        return t.transform(_logged(_make_fn(c['fn']), ulog), axis=c['axis'], inplace=c['inplace'])
     if k == 'rank':
-        return t.rankdata(axis=c['axis'], inplace=c['inplace'], method=c['method'])
+        real = scipy.stats.rankdata
+
+        def counting(a, *args, **kw):
+            ulog.append(np.array(a, dtype=float).tolist())
+            return real(a, *args, **kw)
+        scipy.stats.rankdata = counting
+        try:
+            return t.rankdata(axis=c['axis'], inplace=c['inplace'], method=c['method'])
+        finally:
+            scipy.stats.rankdata = real
     if k == 'norm':
         return t.norm(axis=c['axis'], inplace=c['inplace'])
     if k == 'pa':
@@ -300,9 +342,11 @@ def _run_impl(c):
         runs = {}
         for ax in ('observation', 'sample'):
             t = T.build(c['spec'])
+            ulog = []
             with Spy() as sp:
-                r = t.transform(FUNCS[c['fn']], axis=ax, inplace=False)
+                r = t.transform(_logged(FUNCS[c['fn']], ulog), axis=ax, inplace=False)
             obs[ax] = _snap(r)
+            obs['ncalls_' + ax] = len(ulog)
             runs[ax] = sp.runs[0]
         obs['layout_ok'] = True
         _STASH[jhash(c)] = runs
@@ -313,6 +357,11 @@ def _run_impl(c):
         # preparatory step (not under test here): relative abundances, then the operation
         t.norm(axis=c['prenorm'], inplace=True)
         base = _snap(t)
+    if c.get('prezero'):
+        # preparatory step: an earlier transform zeroed the small values, leaving vectors emptied by it
+        t.transform(FUNCS['zero_small'], axis=c['prezero'], inplace=True)
+        base = _snap(t)
+    ulog = []
     pre = _arrays(t.matrix_data)
     with Spy() as sp:
         if _is_cli(c):
@@ -321,7 +370,7 @@ def _run_impl(c):
             same_obj, post = None, None
         else:
             try:
-                r = _op(c, t)
+                r = _op(c, t, ulog)
                 res = ['ok', _snap(r)]
                 same_obj = r is t
                 post = _arrays(r.matrix_data)
@@ -335,7 +384,10 @@ def _run_impl(c):
             obs['receiver'] = _snap(t)
         obs['returned_receiver'] = same_obj
     if run is not None:
-        obs['calls'] = None if failed else run['calls']
+        # transform: the calls the LIBRARY made to the user's function (not only those of the kernel)
+        obs['calls'] = None if failed else (ulog if c['kind'] == 'transform' else run['calls'])
+        if c['kind'] == 'rank':
+            obs['fn_calls'] = len(ulog)          # invocations of scipy.stats.rankdata
         obs['kernel'] = {'indptr': run['before']['indptr'], 'indices': run['before']['indices'], 'data': run['after'],
                          'calls': run['calls'], 'segments_ok': True} if not failed else None
         obs['shim_agrees'] = True if failed else _shim_check(run)
@@ -459,7 +511,8 @@ def decode(tree, c):
     k = c['kind']
     if k == 'axis_indep':
         o, s = tree
-        return {'observation': _result(o[1], cd)[1], 'sample': _result(s[1], cd)[1], 'layout_ok': bool(o[3]) and bool(s[3])}
+        return {'observation': _result(o[1], cd)[1], 'sample': _result(s[1], cd)[1], 'layout_ok': bool(o[3]) and bool(s[3]),
+                'ncalls_observation': len(o[2]), 'ncalls_sample': len(s[2])}
     sc = _content(c)
     if k == 'norm':
         m, lay_ok = tree
@@ -495,6 +548,8 @@ def decode(tree, c):
         obs['receiver'] = T.norm_snap(cd.untable(recv))
     obs['returned_receiver'] = None if failed else bool(c['inplace'])
     obs['calls'] = None if failed else calls
+    if k == 'rank':
+        obs['fn_calls'] = len(calls)
     obs['kernel'] = None if failed else {'indptr': kern[0], 'indices': kern[1], 'data': [cd.unval(v) for v in kern[2]],
                                          'calls': _uncalls(kern[3], cd), 'segments_ok': bool(kern[4])}
     obs['shim_agrees'] = True
@@ -575,6 +630,9 @@ def oracle(c, obs):
             R = np.array(obs[ax]['mat'], dtype=float).reshape(M.shape)
             if not np.array_equal(R, ref):
                 fails.append('element-wise %s along %s differs from applying it to the non-zero cells' % (c['fn'], ax))
+        if obs.get('ncalls_observation') != M.shape[0] or obs.get('ncalls_sample') != M.shape[1]:
+            fails.append('the function was called %s / %s times along observations / samples of a %d x %d table'
+                         % (obs.get('ncalls_observation'), obs.get('ncalls_sample'), M.shape[0], M.shape[1]))
         if obs['observation'] != obs['sample']:
             fails.append('element-wise %s gives different tables along the two axes' % c['fn'])
         return fails
@@ -629,6 +687,8 @@ def oracle(c, obs):
             elif not np.array_equal(W[i], V[i]):
                 fails.append('an all-zero vector was changed by norm')
     elif k == 'rank':
+        if obs.get('fn_calls') != V.shape[0]:
+            fails.append('the rank function was invoked %s times for %d vectors' % (obs.get('fn_calls'), V.shape[0]))
         for i in range(V.shape[0]):
             nz = V[i] != 0
             vals, ranks = V[i][nz].tolist(), W[i][nz].tolist()
@@ -647,6 +707,12 @@ def oracle(c, obs):
                 fails.append('element-wise %s: result differs from applying it to the non-zero cells only' % fn)
         elif fn == 'too_long':
             pass            # nothing stored anywhere (checked above): nothing to write, the generic checks apply
+        elif fn == 'counter':
+            # one call per vector in axis order, empty vectors included: vector number i gets + i
+            for i in range(V.shape[0]):
+                nz = V[i] != 0
+                if nz.any() and not np.array_equal(W[i][nz], V[i][nz] + i):
+                    fails.append('stateful function: vector %d holds %s, expected its values + %d' % (i, W[i][nz].tolist(), i))
         elif fn in ORDER_FREE:
             for i in range(V.shape[0]):
                 nz = V[i] != 0
@@ -655,7 +721,7 @@ def oracle(c, obs):
         else:
             # order-sensitive / id / metadata functions: the values written to the non-zero cells of
             # each vector are the values the function returned for that vector
-            for i, (call, ) in enumerate(zip(obs.get('calls') or [])):
+            for i, (call, ) in enumerate(zip((obs.get('calls') or [])[:V.shape[0]])):
                 nz = V[i] != 0
                 want = sorted(np.asarray(FUNCS[fn](np.array(call[0], dtype=float), call[1], call[2]), dtype=float).tolist())
                 if sorted(W[i][nz].tolist()) != want:
@@ -671,6 +737,23 @@ def oracle(c, obs):
 
 
 # ---------------------------------------------------------------- generation
+def _share_ids(rng, spec):
+    """observation and sample ids are separate namespaces: in ~25 % of the tables the same strings
+    name vectors on both axes (fully: numeric ids on both; or partially)"""
+    u = rng.random()
+    if u >= 0.25:
+        return
+    r, c = len(spec['oids']), len(spec['sids'])
+    pool = [str(k + 1) for k in range(max(r, c))]
+    if u < 0.12:
+        spec['oids'] = rng.sample(pool, r)
+        spec['sids'] = rng.sample(pool, c)
+    else:
+        take = rng.sample(spec['oids'], min(r, c, rng.randint(1, 3)))
+        for k, x in zip(rng.sample(range(c), len(take)), take):
+            spec['sids'][k] = x
+
+
 def _cli_md(spec):
     """metadata kinds whose file round trip is not this property's business are replaced by plain strings"""
     spec['omd'] = None if spec['omd'] is None else [{'g': 'g%d' % (i % 3)} for i in range(len(spec['oids']))]
@@ -693,6 +776,7 @@ def gen_case(rng, kind=None, spec=None):
         # CSR and CSC start layouts in equal parts
         if rng.random() < 0.5:
             spec['layout'] = [rng.choice(['csc', 'csc', 'dense', 'coo'])] + spec['layout'][1:] + [rng.choice(['colaccess', 'copy', 'nnz'])]
+        _share_ids(rng, spec)
     c = {'kind': kind, 'spec': spec, 'axis': rng.choice(['observation', 'sample']), 'inplace': kind == 'normalize' or rng.random() < 0.5}
     if kind == 'normalize':
         c['rel'], c['pa'] = rng.choice([(True, False), (True, False), (False, True), (False, True), (False, False), (True, True)])
@@ -723,7 +807,9 @@ def gen_case(rng, kind=None, spec=None):
             spec['mat'] = [[abs(v) * rng.choice([1.0, 1.0, 6.5e8, 3e11]) for v in row] for row in spec['mat']]
             c['prenorm'] = rng.choice(['observation', 'sample'])
     if kind == 'transform':
-        c['fn'] = rng.choice(sorted(FUNCS) + ['plus1', 'plus1', 'relative', 'reverse'])
+        c['fn'] = rng.choice(sorted(FUNCS) + ['plus1', 'plus1', 'relative', 'reverse', 'counter', 'counter', 'inplace_double', 'inplace_double'])
+        if rng.random() < 0.15:
+            c['prezero'] = rng.choice(['observation', 'sample'])
     elif kind == 'rank':
         c['method'] = rng.choice(RANK_METHODS)
     elif kind == 'axis_indep':
@@ -782,6 +868,10 @@ def classify(c):
         tags.append('norm-then-op')
     if M.size and ((M != 0) & (np.abs(M) <= 1e-8)).any():
         tags.append('tiny-magnitudes')
+    if set(c['spec']['oids']) & set(c['spec']['sids']):
+        tags.append('ids-shared-between-axes')
+    if c.get('prezero'):
+        tags.append('zeroing-transform-then-op')
     if c['kind'] == 'normalize':
         tags.append('via:' + c.get('via', 'function'))
     for key in ('fn', 'method'):
